@@ -128,7 +128,8 @@ def run_batch(job):
 
 
 def random_batch(rnd, bid, n, big, tiny_only=False):
-    seq = {f"n{k}": "".join(rnd.choice("ACGT") for _ in range(rnd.randint(150, 400) if big else rnd.randint(5, 40))) for k in range(1, 5)}
+    # (segment names are free text: some have characters that are no word characters)
+    seq = {["n1", "n2.1", "n3-b", "n4"][k - 1]: "".join(rnd.choice("ACGT") for _ in range(rnd.randint(150, 400) if big else rnd.randint(5, 40))) for k in range(1, 5)}
     names = list(seq)
     links = [(a, ao, b, bo) for a in names for b in names for ao in "+-" for bo in "+-"]
     recs = []
